@@ -155,6 +155,10 @@ def bind(symarg, nat):
         for j, x in enumerate(nat):
             fs.append(_b(bind(symarg.at(lift(j)), x)))
         return z3.And(*fs)
+    if isinstance(symarg, (list, tuple)) and any(isinstance(x, (Sym, Model)) for x in symarg):
+        if len(symarg) != len(nat):
+            return False
+        return z3.And(*[_b(bind(a, b)) for a, b in zip(symarg, nat)])
     if not isinstance(symarg, (Sym, Model)):
         return True     # concrete parameter (Const)
     raise NoSampler(f'bind {symarg!r}')
